@@ -224,6 +224,10 @@ impl Outcome {
     }
 }
 
+pub fn to_json<T: Serialize>(t: &T) -> String {
+    serde_json::to_string(t).unwrap_or_default()
+}
+
 pub fn stable_hash<T: Hash>(t: &T) -> u64 {
     // FNV-1a over the std Hash stream with a fixed-key hasher (SipHasher default keys are fixed
     // for `DefaultHasher::new()`).
